@@ -236,11 +236,13 @@ static std::string size_sym(size_t v)
     return b;
 }
 
-enum Ep { E_NEW, E_NEWDBG, E_NEWNT, E_NEWARR, E_NEWARRDBG, E_NEWARRNT, E_MALLOC, E_DELETE, E_DELETEARR, E_FREE, E_BAD };
+enum Ep { E_NEW, E_NEWDBG, E_NEWNT, E_NEWARR, E_NEWARRDBG, E_NEWARRNT, E_MALLOC, E_DELETE, E_DELETEARR, E_FREE,
+          E_DELETESZ, E_DELETENT, E_DELETEDBG, E_DELETEDBGI, E_DELETEARRSZ, E_DELETEARRNT, E_DELETEARRDBG, E_DELETEARRDBGI, E_BAD };
 static Ep ep_of(const std::string& s)
 {
-    static const char* names[] = {"new", "newdbg", "newnt", "newarr", "newarrdbg", "newarrnt", "malloc", "delete", "deletearr", "free"};
-    for (int i = 0; i < 10; i++) if (s == names[i]) return (Ep) i;
+    static const char* names[] = {"new", "newdbg", "newnt", "newarr", "newarrdbg", "newarrnt", "malloc", "delete", "deletearr", "free",
+                                  "deletesz", "deletent", "deletedbg", "deletedbgi", "deletearrsz", "deletearrnt", "deletearrdbg", "deletearrdbgi"};
+    for (int i = 0; i < 18; i++) if (s == names[i]) return (Ep) i;
     return E_BAD;
 }
 
@@ -287,11 +289,12 @@ int main(int argc, char** argv)
     PlatformSpecificRealloc = stub_realloc;
 
     static char foreign[64];
-    ArenaAllocator* plain[3]; ArenaAllocator* twin[3]; WrapAllocator* wrap[3];
+    ArenaAllocator* plain[3]; ArenaAllocator* twin[3]; WrapAllocator* wrap[3]; ArenaAllocator* relabel[3];
     const char* nm[3] = {"Arena New", "Arena New []", "Arena Malloc"};
     const char* an[3] = {"new", "new []", "malloc"};
     const char* fn[3] = {"delete", "delete []", "free"};
-    for (int f = 0; f < 3; f++) { plain[f] = new ArenaAllocator(nm[f], an[f], fn[f]); twin[f] = new ArenaAllocator(nm[f], an[f], fn[f]); wrap[f] = new WrapAllocator(plain[f]); }
+    for (int f = 0; f < 3; f++) { plain[f] = new ArenaAllocator(nm[f], an[f], fn[f]); twin[f] = new ArenaAllocator(nm[f], an[f], fn[f]); wrap[f] = new WrapAllocator(plain[f]);
+                                  relabel[f] = new ArenaAllocator(nm[f], "obtain", "give back"); }
     RecFailure* rf = new RecFailure;
     MemoryLeakDetector* det = new MemoryLeakDetector(rf);
     MemoryLeakWarningPlugin::setGlobalDetector(det, rf);
@@ -418,9 +421,22 @@ int main(int argc, char** argv)
                 }
             }
             ON();
-            if (ep == E_DELETE) ::operator delete(addr);
-            else if (ep == E_DELETEARR) ::operator delete[](addr);
-            else cpputest_free_location(addr, "free.c", 21);
+            // every form of operator delete / delete[] the library replaces (the placement forms are the ones the runtime calls when a
+            // constructor throws inside the matching new-expression); the size passed to the sized forms is what the program knows
+            const size_t known = (s >= 0 && sh[s].live) ? sh[s].size : 1;
+            switch (ep) {
+            case E_DELETE: ::operator delete(addr); break;
+            case E_DELETESZ: ::operator delete(addr, known); break;
+            case E_DELETENT: ::operator delete(addr, std::nothrow); break;
+            case E_DELETEDBG: ::operator delete(addr, "file.cpp", (size_t) 11); break;
+            case E_DELETEDBGI: ::operator delete(addr, "file.cpp", (int) 11); break;
+            case E_DELETEARR: ::operator delete[](addr); break;
+            case E_DELETEARRSZ: ::operator delete[](addr, known); break;
+            case E_DELETEARRNT: ::operator delete[](addr, std::nothrow); break;
+            case E_DELETEARRDBG: ::operator delete[](addr, "file.cpp", (size_t) 12); break;
+            case E_DELETEARRDBGI: ::operator delete[](addr, "file.cpp", (int) 12); break;
+            default: cpputest_free_location(addr, "free.c", 21); break;
+            }
             OFF();
             if (g_freed_slot >= 0) sh[g_freed_slot].live = false;
         }
@@ -428,7 +444,8 @@ int main(int argc, char** argv)
         else if (op == "typecheck") { if (val) det->enableAllocationTypeChecking(); else det->disableAllocationTypeChecking(); }
         else if (op == "setalloc") {
             int fam = eps == "new" ? 0 : eps == "newarr" ? 1 : 2;
-            TestMemoryAllocator* a = var == "twin" ? (TestMemoryAllocator*) twin[fam] : var == "wrap" ? (TestMemoryAllocator*) wrap[fam] : (TestMemoryAllocator*) plain[fam];
+            TestMemoryAllocator* a = var == "twin" ? (TestMemoryAllocator*) twin[fam] : var == "wrap" ? (TestMemoryAllocator*) wrap[fam]
+                                   : var == "relabel" ? (TestMemoryAllocator*) relabel[fam] : (TestMemoryAllocator*) plain[fam];
             if (fam == 0) setCurrentNewAllocator(a); else if (fam == 1) setCurrentNewArrayAllocator(a); else setCurrentMallocAllocator(a);
         }
         else { fprintf(out, "{\"op\":\"harness-error\",\"what\":\"unknown op\"}\n"); break; }
